@@ -16,11 +16,14 @@ package snowflake_client
 //     configurations (empty, garbage, unreachable, valid) and stub rendezvous methods, under recover.
 
 import (
+	"context"
 	"errors"
 	"fmt"
 	"io"
 	"log"
 	"math/rand"
+	"net"
+	"net/url"
 	"os"
 	"os/exec"
 	"sort"
@@ -569,6 +572,98 @@ func c15ConcurrentEnd(r *vh.Run, max, pre int) {
 	}
 }
 
+// c15ErrRendezvous: a rendezvous method whose exchange is in flight until released and then fails with a given
+// class of error. Used for "Close while a rendezvous attempt is in flight": End() may wait for that one attempt,
+// and no further attempt may follow, whatever kind of error the attempt ends with.
+type c15ErrRendezvous struct {
+	err     error
+	mu      sync.Mutex
+	n       int
+	entered chan struct{} // closed when the first exchange has started
+	release chan struct{} // the first exchange returns when this is closed
+	once    sync.Once
+}
+
+func (s *c15ErrRendezvous) Exchange(req []byte) ([]byte, error) {
+	s.mu.Lock()
+	s.n++
+	first := s.n == 1
+	s.mu.Unlock()
+	if first {
+		s.once.Do(func() { close(s.entered) })
+		<-s.release
+	}
+	return nil, s.err
+}
+
+func (s *c15ErrRendezvous) calls() int {
+	s.mu.Lock()
+	defer s.mu.Unlock()
+	return s.n
+}
+
+type c15TimeoutErr struct{ temporary bool }
+
+func (e c15TimeoutErr) Error() string   { return "c15: i/o timeout" }
+func (e c15TimeoutErr) Timeout() bool   { return !e.temporary }
+func (e c15TimeoutErr) Temporary() bool { return true }
+
+func c15CloseDuringRendezvous(r *vh.Run) {
+	classes := []struct {
+		name string
+		err  error
+	}{
+		{"plain error", errors.New("c15: broker unreachable")},
+		{"net.OpError with Timeout() true", &net.OpError{Op: "dial", Net: "tcp", Err: c15TimeoutErr{}}},
+		{"url.Error wrapping a timeout", &url.Error{Op: "Post", URL: "https://broker.invalid/", Err: c15TimeoutErr{}}},
+		{"context.DeadlineExceeded", context.DeadlineExceeded},
+		{"os.ErrDeadlineExceeded", os.ErrDeadlineExceeded},
+		{"temporary net error", &net.OpError{Op: "read", Net: "tcp", Err: c15TimeoutErr{temporary: true}}},
+		{"io.ErrUnexpectedEOF", io.ErrUnexpectedEOF},
+	}
+	var wg sync.WaitGroup
+	for _, cl := range classes {
+		wg.Add(1)
+		go func(name string, e error) {
+			defer wg.Done()
+			stub := &c15ErrRendezvous{err: e, entered: make(chan struct{}), release: make(chan struct{})}
+			broker := &BrokerChannel{Rendezvous: stub, keepLocalAddresses: true, natType: "unknown"}
+			peers, _ := NewPeers(NewWebRTCDialerWithEvents(broker, nil, 1, c15Renderer()))
+			line := fmt.Sprintf("Collect() with a rendezvous exchange in flight; End() is called; the exchange then fails with %s", name)
+			r.Case("close-during-rendezvous/"+name, line, true)
+			col := c15Async(func() string {
+				if _, err := peers.Collect(); err != nil {
+					return "err"
+				}
+				return "ok"
+			})
+			select {
+			case <-stub.entered:
+			case <-time.After(20 * time.Second):
+				r.Note("close during rendezvous (%s): the exchange never started", name)
+				close(stub.release)
+				return
+			}
+			end := c15Async(func() string { peers.End(); return "ok" })
+			time.Sleep(100 * time.Millisecond)
+			close(stub.release)
+			t0 := time.Now()
+			eo, _ := c15Wait(end, 8*time.Second)
+			took := time.Since(t0)
+			co, _ := c15Wait(col, 8*time.Second)
+			time.Sleep(2500 * time.Millisecond) // would a further attempt follow?
+			real := fmt.Sprintf("End: %s %v after the attempt in flight had failed; Collect: %s; exchanges with the broker: %d", eo, took.Round(10*time.Millisecond), co, stub.calls())
+			if eo != "ok" || took > 1500*time.Millisecond {
+				r.OracleFail("close-waits-for-more-than-the-attempt-in-flight", line, real, "closing waits at most for the one rendezvous attempt already in flight")
+			}
+			if stub.calls() > 1 {
+				r.OracleFail("rendezvous-attempt-after-close", line, real, "closing stops all further rendezvous attempts with the broker")
+			}
+		}(cl.name, cl.err)
+	}
+	wg.Wait()
+}
+
 type c15StubRendezvous struct {
 	kind string
 	mu   sync.Mutex
@@ -1093,6 +1188,7 @@ func TestVerifC15(t *testing.T) {
 		c15DialCloseTwice(r, []string{""}) // the client binary's default -ice value
 		c15DialCloseTwice(r, []string{"   "})
 		c15StaleQueueRace(r)
+		c15CloseDuringRendezvous(r)
 		c15DialClose(r, nil, "session")
 		c15DialClose(r, nil, "stream")
 		c15DialCloseTwice(r, []string{"stun:127.0.0.1:1", ""}) // trailing comma
